@@ -8,6 +8,6 @@ cp /repo/go.sum harness/go.sum
 (cd harness && go build -tags verif -o ../.bin/sfimpl ./cmd/sfimpl)
 (cd facts && go build -o ../.bin/sffacts ./cmd/sffacts)
 ./.bin/sffacts -repo /repo -out lean/SF/Gen
-# SF imports every model, proof and property module (88 kLoC: about 6 minutes on 16 cores from scratch)
+# SF imports every model, proof and property module (110 kLoC: about 6 minutes on 16 cores from scratch)
 (cd lean && lake build SF SF.GenCheck sfmodel)
 echo setup ok
